@@ -332,7 +332,7 @@ static void enumerate(void)
 	for (int c = 0; c < NCFG; c++) {
 		int maxthr = (vf_thorough && c == 0) ? 3 : 2;
 		for (int nthr = 2; nthr <= maxthr; nthr++) {
-			int bound = vf_thorough && c <= 1 && nthr == 2 ? 2 : 1;
+			int bound = vf_thorough && nthr == 2 ? 2 : 1;
 			/* roots: which thread starts is a free choice (no thread is running yet).  For every root the execution without
 			 * further deviation defines the top-level branches; every shard recomputes it (deterministic, a few ms). */
 			for (int root = 0; root < nthr; root++) {
